@@ -98,6 +98,18 @@ func (x *Exec) callWith(fr *Frame, st *State, in *ssa.Call, cc *ssa.CallCommon, 
 		x.staticCall(fr, st, cc, fn.SFn, nil, args, k)
 		return
 	}
+	if strings.HasPrefix(fn.Org, "global:") {
+		gname := strings.TrimPrefix(fn.Org, "global:")
+		key := "G_" + sanitize(strings.ReplaceAll(gname, ".", "_"))
+		if pat, ok := x.L.regexGlobals[key]; ok && x.L.immutableGlobal[key] {
+			r := x.freshVal(st, "regex", sig.Results().At(0).Type())
+			st.assume(Not(Eq(r.T, IntLit(0))))
+			r.Org = "regex:" + pat
+			x.funcsUsed["assume:sync.OnceValue returns the same compiled pattern on every call"] = true
+			k(st, r)
+			return
+		}
+	}
 	// dynamic call of an unknown func value
 	desc := x.exprText(cc.Value, cc.Pos())
 	x.oblige(st, "SAFE", "nonnil-func("+desc+")", Not(Eq(Term{fmt.Sprintf("(fid %s)", fn.T.S), "Int"}, IntLit(0))), "call of nil func value")
@@ -230,6 +242,17 @@ func (x *Exec) staticCall(fr *Frame, st *State, cc *ssa.CallCommon, callee *ssa.
 	}
 	// library function without a table entry
 	if isPurePackage(callee) {
+		if deterministicLib(callee) {
+			// a function of value-typed arguments in a side-effect-free
+			// package: an unspecified but deterministic function
+			x.funcsUsed["lib-pure:"+name+" (deterministic function of its arguments, otherwise unspecified)"] = true
+			var rs []Val
+			for i := 0; i < sig.Results().Len(); i++ {
+				rs = append(rs, x.uninterp(st, fmt.Sprintf("lf_%s_%d", sanitize(name), i), args, sig.Results().At(i).Type()))
+			}
+			k(st, resultVal(rs, sig))
+			return
+		}
 		x.note("assumed side-effect free (results arbitrary): %s", name)
 		rs := x.freshResults(st, sig)
 		k(st, resultVal(rs, sig))
@@ -255,6 +278,55 @@ var purePkgs = map[string]bool{
 func isPurePackage(f *ssa.Function) bool {
 	p := FuncPkgPath(f)
 	return purePkgs[p]
+}
+
+var nondetPkgs = map[string]bool{"time": true, "math/rand": true, "crypto/rand": true, "os": true, "net": true, "net/http": true, "io": true, "bufio": true, "sync": true, "sync/atomic": true, "runtime": true, "log": true, "context": true, "reflect": true}
+
+func valueLike(T types.Type, depth int) bool {
+	if depth > 4 {
+		return false
+	}
+	switch u := T.Underlying().(type) {
+	case *types.Basic:
+		return u.Kind() != types.UnsafePointer
+	case *types.Slice:
+		return valueLike(u.Elem(), depth+1)
+	case *types.Array:
+		return valueLike(u.Elem(), depth+1)
+	case *types.Struct:
+		for i := 0; i < u.NumFields(); i++ {
+			if !valueLike(u.Field(i).Type(), depth+1) {
+				return false
+			}
+		}
+		return true
+	}
+	return false
+}
+
+func deterministicLib(f *ssa.Function) bool {
+	if nondetPkgs[FuncPkgPath(f)] {
+		return false
+	}
+	sig := f.Signature
+	if sig.Recv() != nil && !valueLike(sig.Recv().Type(), 0) {
+		return false
+	}
+	for i := 0; i < sig.Params().Len(); i++ {
+		if !valueLike(sig.Params().At(i).Type(), 0) {
+			return false
+		}
+	}
+	for i := 0; i < sig.Results().Len(); i++ {
+		rt := sig.Results().At(i).Type()
+		if types.Identical(rt, types.Universe.Lookup("error").Type()) {
+			continue
+		}
+		if !valueLike(rt, 0) {
+			return false
+		}
+	}
+	return sig.Results().Len() > 0
 }
 
 func (x *Exec) inlineCall(fr *Frame, st *State, callee *ssa.Function, clo *Closure, args []Val, k func(*State, Val)) {
